@@ -258,10 +258,10 @@ int main(int argc, char **argv) {
     P1 = ctx.opt["prop"] != "C02";
     bool T = ctx.thorough();
     // iterated bounds: small first, so the first counterexample is the smallest
-    for (int n = 1; n <= 3; n++) instances(n, n < 3 ? 3 : (T ? 4 : 3), true, 0, false);
+    for (int n = 1; n <= 3; n++) instances(n, 3, true, 0, false);
     instances(3, 3, true, 1, false);
     instances(2, 3, true, 2, false);
-    if (!P1) { instances(2, 3, true, 0, true); instances(3, T ? 3 : 2, true, 0, true); instances(3, 2, false, 1, true); }
+    if (!P1) { instances(2, 3, true, 0, true); instances(3, 2, true, 0, true); instances(3, 2, false, 1, true); }
     histories<NSvpsc>(3, 3, 0, false);
     histories<NSvpsc>(3, 4, 0, false);
     histories<NSvpsc>(3, 4, 1, false);
@@ -269,17 +269,16 @@ int main(int argc, char **argv) {
     histories<NSvpsc>(3, 5, 1, false);
     histories<NSvpsc>(3, 4, 2, true);
     if (T) {
+        instances(3, 4, true, 0, false);
         instances(4, 3, true, 0, false);
         instances(3, 5, false, 0, false);
         instances(4, 4, false, 0, false);
-        instances(4, 3, true, 1, false);
-        if (!P1) instances(4, 3, false, 0, true);
+        if (!P1) instances(4, 2, false, 0, true);
         histories<NSvpsc>(3, 5, 0, true);
         histories<NSavoid>(3, 5, 1, false);
         histories<NSvpsc>(3, 6, 0, false);
         histories<NSvpsc>(3, 6, 1, false);
         histories<NSvpsc>(4, 5, 0, false);
-        histories<NSavoid>(3, 6, 0, false);
     }
     return ctx.finish();
 }
